@@ -32,8 +32,8 @@ func init() {
 	Register(&Rule{
 		ID:    "R-POOL",
 		Doc:   "typestate per sync.Pool object x := P.Get(): after P.Put(x) no use of x or of memory loaded from it; nothing derived from x's memory flows to a return (copy-out); a released tokenizer stack is dropped from its owner",
-		Props: []string{"C09", "C10", "C17"},
-		Min:   map[string]int{"C09": 7, "C10": 2, "C17": 1},
+		Props: []string{"C09", "C10", "C17", "C03"},
+		Min:   map[string]int{"C09": 7, "C10": 2, "C17": 1, "C03": 1},
 		Run:   runPool,
 	})
 	Register(&Rule{
@@ -754,6 +754,9 @@ func runPool(c *core.Ctx) []core.Obligation {
 		if strings.Contains(shortName(fn), "Tokenizer") {
 			props = []string{"C09", "C17"}
 		}
+		if strings.HasPrefix(shortName(fn), "proto.") {
+			props = []string{"C09", "C03"}
+		}
 		// derived-from-x within fn
 		derivedFrom := func(x ssa.Value) map[ssa.Value]bool {
 			d := map[ssa.Value]bool{x: true}
@@ -872,6 +875,55 @@ func runPool(c *core.Ctx) []core.Obligation {
 				b.addP(props, core.Violation, key, c.InstrPos(g.at), problems[0])
 			} else {
 				b.addP(props, core.Discharged, key, c.InstrPos(g.at), fmt.Sprintf("%d Put(s) of this object; no use after Put, nothing derived from it returned", nput))
+			}
+		}
+		// scrub-before-put: if the function resets the pooled object (typed zeroing through
+		// runtime_reflect.Assign, or truncation of its slices) before one Put, it must do so before
+		// every Put — the next Get assumes a clean object
+		{
+			type putSite struct {
+				at    ssa.Instruction
+				clean bool
+			}
+			var ps []putSite
+			var anyClean ssa.Instruction
+			for _, p := range puts {
+				if _, isWrapper := p.at.(ssa.CallInstruction); !isWrapper {
+					continue
+				}
+				site := putSite{at: p.at}
+				for _, blk := range fn.Blocks {
+					for _, in := range blk.Instrs {
+						call, ok := in.(*ssa.Call)
+						if !ok {
+							continue
+						}
+						n := calleeName(call.Common())
+						if !strings.HasSuffix(n, "runtime_reflect.Assign") || len(call.Common().Args) != 3 {
+							continue
+						}
+						// Put(any(x)) / Assign(t, x, zero): same object?
+						parg := p.arg
+						if mi, ok := parg.(*ssa.MakeInterface); ok {
+							parg = mi.X
+						}
+						if call.Common().Args[1] == parg && instrDominates(call, p.at) {
+							site.clean = true
+							anyClean = call
+						}
+					}
+				}
+				ps = append(ps, site)
+			}
+			if anyClean != nil {
+				for _, site := range ps {
+					key := "pool:scrub-before-put@" + shortName(fn)
+					if site.clean {
+						b.addP(props, core.Discharged, key, c.InstrPos(site.at), "the pooled object is reset to its zero value before this Put")
+					} else {
+						b.addP(props, core.Violation, key, c.InstrPos(site.at), fmt.Sprintf("%s returns the scratch object to the pool at %s without the reset performed before its other Put (%s): the next caller decodes into stale field values", shortName(fn), c.InstrPos(site.at), c.InstrPos(anyClean)))
+					}
+				}
 			}
 		}
 		// owner field must be cleared after release through a wrapper: releaseStack(t.stack); t.stack = nil
